@@ -623,6 +623,11 @@ func writeEvidence(p *Plan, prop, tier string, seed uint64, total *Stats, nviol 
 	}
 	dir := filepath.Join(verifDir(), "evidence")
 	os.MkdirAll(dir, 0o755)
+	if tier == "thorough" {
+		// evidence/<id>.json is rewritten by every run; the last thorough run is also kept on its own
+		os.MkdirAll(filepath.Join(dir, "thorough"), 0o755)
+		os.WriteFile(filepath.Join(dir, "thorough", prop+".json"), b, 0o644)
+	}
 	return os.WriteFile(filepath.Join(dir, prop+".json"), b, 0o644)
 }
 
